@@ -10,7 +10,9 @@
 (*            different setters; both orders when they write a common      *)
 (*            field; the same setter twice = "last write wins"); setters   *)
 (*            with several arguments vary one argument at a time here      *)
-(*   Level 3: + every triple of different setters                          *)
+(*   Level 3: + every triple of different setters (multi-argument setters   *)
+(*            vary one argument at a time inside triples), pairs with the   *)
+(*            full argument products                                        *)
 (*   Full   : for builders whose full grid has at most MaxFull points:     *)
 (*            every subset of setters, each with every argument tuple      *)
 (***************************************************************************)
@@ -36,9 +38,8 @@ Singles(a) == CtorCalls(a) \cup {CtorTyp(a) \o <<c>> : c \in UNION {Calls(a, s) 
 
 \* in pairs (Level 2) a multi-argument setter varies one argument at a time around its typical tuple;
 \* its full argument product is covered by Singles and, from Level 3 on, everywhere
-AxisCalls(a, s) ==
-  IF Level >= 3 THEN Calls(a, s)
-  ELSE {c \in Calls(a, s) : Cardinality({k \in 1..Doc[a].s[s].na : c.a[k] # Typical(a, s).a[k]}) <= 1}
+OneAxis(a, s) == {c \in Calls(a, s) : Cardinality({k \in 1..Doc[a].s[s].na : c.a[k] # Typical(a, s).a[k]}) <= 1}
+AxisCalls(a, s) == IF Level >= 3 THEN Calls(a, s) ELSE OneAxis(a, s)
 
 Pairs(a) ==
   {p \o <<c>> : p \in CtorCalls(a), c \in UNION {AxisCalls(a, s) : s \in NonCtor(a)}}
@@ -49,7 +50,7 @@ Pairs(a) ==
                         \/ q[1] = q[2] /\ Doc[a].s[q[1]].na <= (IF Level >= 3 THEN 2 ELSE 1)}}
 
 Triples(a) ==
-  UNION {{CtorTyp(a) \o <<c1, c2, c3>> : c1 \in Calls(a, t[1]), c2 \in Calls(a, t[2]), c3 \in Calls(a, t[3])} :
+  UNION {{CtorTyp(a) \o <<c1, c2, c3>> : c1 \in OneAxis(a, t[1]), c2 \in OneAxis(a, t[2]), c3 \in OneAxis(a, t[3])} :
          t \in {q \in NonCtor(a) \X NonCtor(a) \X NonCtor(a) : q[1] < q[2] /\ q[2] < q[3]}}
 
 \* full grid: setters in index order, each absent or called once
